@@ -1146,7 +1146,11 @@ func (c *Conn) recvPayload(payload rpccp.Payload) (_ capnp.Ptr, locals uintSet, 
 		var err error
 		mtab[i], local, err = c.recvCap(ptab.At(i))
 		if err != nil {
-			releaseList(mtab[:i]).release()
+			// The clients materialized so far cannot be released here:
+			// c.mu is held and releasing an import client acquires it.
+			// Leave them in the message's table; every caller clears the
+			// table (or resets the message) after dropping c.mu.
+			payload.Message().CapTable = mtab[:i]
 			return capnp.Ptr{}, nil, annotate(err).errorf("read payload: capability %d", i)
 		}
 		if local {
